@@ -95,6 +95,10 @@ std::atomic<long long> gNodes{0};
 long long gNodesPerMs = 0;
 long long vclock() { return 1000 + gNodes.load(std::memory_order_relaxed) / gNodesPerMs; }
 void node() { gNodes.fetch_add(1, std::memory_order_relaxed); }
+// On-demand tablebase generation searches no nodes: every progress report of the generator (one per 65536 indices in the two
+// classification passes, one per retrograde iteration) counts as 5 ms of virtual time, so that a stop / ponderhit / hard limit arriving
+// while a table is being generated is judged like one arriving during the search.
+void tbTick(int, int) { gNodes.fetch_add(5 * gNodesPerMs, std::memory_order_relaxed); }
 
 struct Init {
     Init() {
@@ -115,6 +119,7 @@ struct Init {
             gNodesPerMs = atoll(ck);
             verif::clockHook = vclock;
             verif::nodeHook = node;
+            verif::tbPhaseHook = tbTick;
         }
         const char* wd = getenv("VERIF_WATCHDOG");
         if (wd && atoi(wd) > 0) {
